@@ -18,21 +18,35 @@ def selections(rng, names):
     if n >= 3:
         out += [[names[2], names[0]], names[1:], ["zzz"] + names[::2] + ["yyy"]]
     out.append(["nope", "neither"])
+    # names absent from the plotfile that equal a field up to letter case, alone and next to a field
+    for nm in names[:2]:
+        v = nm.upper() if nm != nm.upper() else nm.lower()
+        if v not in names:
+            out += [[v], [v, names[-1]]]
     for _ in range(2):
         k = rng.randint(1, n)
         out.append(rng.sample(names, k))
     return out
 
 
-def run_case(ctx, rep, spec, variables, limit, model, path=None, P=None, start=None, cli=False):
+def run_case(ctx, rep, spec, variables, limit, model, path=None, P=None, start=None, cli=False, before=None):
     from amr_kitchen.colander.colander import Colander
     if path is None:
         path = ctx.newdir("c05in_")
         plotgen.materialize(spec, path)
         P = oracle.parse(path)
     out = ctx.newdir("c05out_")
-    case = {"spec": spec, "variables": variables, "limit": limit, "cli": cli}
+    case = {"spec": spec, "variables": variables, "limit": limit, "cli": cli, "before": before}
     if cli: rep.count("console-script")
+    if before is not None:
+        # the output directory already holds another strain of the same input (same boxes per file, same number of
+        # kept fields): a series of runs writing to one place
+        try:
+            with alarm(120), quiet(), pools.controlled():
+                Colander(plotfile=path, limit_level=limit, output=out, variables=list(before)).strain()
+            rep.count("output-directory-holds-an-earlier-strain")
+        except Exception:
+            pass
     names = dedup_names(spec["fields"])
     nlev_in = len(spec["levels"])
     L = nlev_in - 1 if limit is None else limit
@@ -184,6 +198,11 @@ def run(ctx, rep, model=True):
             spec["fields"][k] = ["Y(C4H6-1,3)", "Y(C5H8 1,3)", "I_R(C4H6-1,3)"][(i // 4) % 3]; rep.count("field-name-with-comma")
         if i % 6 == 1:
             spec["cellh_no_final_newline"] = True; rep.count("level-header-without-final-newline")
+        if i % 5 == 1 and len(spec["fields"]) >= 2 and len(set(spec["fields"])) == len(spec["fields"]):
+            # two fields whose names differ only in letter case (CO and Co, temp and Temp)
+            a, b = [("Y(CO)", "Y(Co)"), ("temp", "Temp"), ("rhoh", "RhoH")][(i // 5) % 3]
+            ks = ctx.rng.sample(range(len(spec["fields"])), 2)
+            spec["fields"][ks[0]], spec["fields"][ks[1]] = a, b; rep.count("field-names-differing-only-in-case")
         path = ctx.newdir("c05in_")
         plotgen.materialize(spec, path)
         P = oracle.parse(path)
@@ -194,6 +213,10 @@ def run(ctx, rep, model=True):
             limit = [None, 0, nlev - 1, max(0, nlev - 2)][j % 4]
             start = [None, pools.order_reversed][j % 2]
             run_case(ctx, rep, spec, v, limit, model, path, P, start, cli=(j % 4 == 1 and i % 2 == 0))
+        if len(names) >= 2:
+            nm = list(names)
+            run_case(ctx, rep, spec, [nm[0]], None, model, path, P, before=[nm[-1]])
+            run_case(ctx, rep, spec, nm[:-1], 0, model, path, P, before=nm[1:])
         if len(rep.violations) >= 10:
             return
 
@@ -202,4 +225,4 @@ def replay(ctx, rep, obj, model=True):
     c = obj["case"]
     if "relative_session" in c:
         relative_session(ctx, rep, c["relative_session"]); return
-    run_case(ctx, rep, c["spec"], c["variables"], c["limit"], model, cli=c.get("cli", False))
+    run_case(ctx, rep, c["spec"], c["variables"], c["limit"], model, cli=c.get("cli", False), before=c.get("before"))
